@@ -100,6 +100,9 @@ def fetch(port, request, reader="fast", rnd=None, timeout=30):
             if reader == "idle5" and len(out) > 0 and not idled:
                 idled = True
                 time.sleep(IDLE_S[0])
+            if reader.startswith("idle:") and len(out) > 0 and not idled:
+                idled = True
+                time.sleep(float(reader.split(":")[1]))
             if reader == "slow":
                 time.sleep(0.002)
                 n = 1024
@@ -196,7 +199,7 @@ def c06_live(rep, rnd, thorough):
                         rep.violation({"formula": "ByteExact", "backend": bk, "kind": "str", "live": True, "declared": meta},
                                       "live %s backend, str body of %d characters declared as %r: received %r..., expected the UTF-8 encoding %r..." % (
                                           bk, size, meta, data[:60], want[:60]), None)
-        n += started_server_idle_reader(rep, cert)
+        n += started_server_idle_reader(rep, cert, long_idle=(rep.pid == "C06"))
         rep.add("live_fetches", n)
         rep.add("traces_validated_against_impl", n)
         rep.sample({"live_c06": {"sizes": sizes[:12], "backends": list(servers), "readers": ["fast", "slow", "bursty"]}})
@@ -206,7 +209,7 @@ def c06_live(rep, rnd, thorough):
         cert.remove()
 
 
-def started_server_idle_reader(rep, cert, formula="ByteExact"):
+def started_server_idle_reader(rep, cert, formula="ByteExact", long_idle=False):
     """The servers the REAL start_server builds (both backends), a static file larger than the kernel's socket buffers,
     and a reader that idles for a few seconds after the header: every byte must still arrive."""
     import shutil
@@ -224,14 +227,27 @@ def started_server_idle_reader(rep, cert, formula="ByteExact"):
         for bk in ("stdlib", "pyopenssl"):
             servers[bk] = RealServer(bk, "supplied", root, cert)
 
+        long_results = {}
+
         def run(bk):
             results[bk] = fetch(servers[bk].port, b"gemini://localhost/big.gmi\r\n", "idle5", None, timeout=120)
+
+        def run_long(bk):
+            # a reader that pauses for longer than asyncio's TLS shutdown allowance (30 s) - in the same wall-clock time
+            long_results[bk] = fetch(servers[bk].port, b"gemini://localhost/big.gmi\r\n", "idle:33", None, timeout=120)
         ths = [threading.Thread(target=run, args=(bk,)) for bk in servers]
+        if long_idle:
+            ths += [threading.Thread(target=run_long, args=(bk,)) for bk in servers]
         for t in ths:
             t.start()
         for t in ths:
             t.join(180)
         want = b"20 text/gemini\r\n" + content.encode()
+        for bk, (data, end) in long_results.items():
+            if data != want or end != "eof":
+                rep.violation({"formula": formula, "backend": bk, "live": True, "reader": "idle>30s", "via": "start_server"},
+                              "server started by start_server (%s backend), 24 MiB static file, reader idle for 33 s after the header: received %d of %d bytes, end=%s" % (
+                                  bk, len(data), len(want), end), None)
         for bk, (data, end) in results.items():
             if data != want or end != "eof":
                 rep.violation({"formula": formula, "backend": bk, "live": True, "reader": "idle", "via": "start_server"},
